@@ -18,6 +18,7 @@ response is outside it (`C03_result_fields`).
 -/
 import Ldap3V.Lemmas.Result
 import Ldap3V.Lemmas.FramingWF
+import Ldap3V.Lemmas.GenPure
 namespace Ldap3V
 open Spec
 
@@ -229,5 +230,28 @@ example : (success 0).isOk = true ∧ (success 10).isOk = false ∧ (nonError 10
     equal 5 = .ok false ∧ equal 6 = .ok true ∧ equal 0 = .error () ∧ (cmpNonError 0).isOk = false ∧
     (cmpNonError 10).isOk = true ∧ (success 4294967296).isOk = false :=
   ⟨rfl, rfl, rfl, rfl, rfl, rfl, rfl, rfl, rfl⟩
+
+/-! ### tie by regeneration (translate/pure_fns.py): the eight helper methods of the *current*
+src/result.rs, as functions of the result code, are the model's. -/
+
+/-- `LdapResult::{success,non_error}`, `SearchResult::…`, `ExopResult::…`, `CompareResult::{equal,non_error}`
+as written in src/result.rs today give, for EVERY result code, the verdict of the model functions that
+`C03_helpers` / `C03_helpers_wrappers` characterise (`resU`/`resB` only rename `Ok`/`Err`). -/
+theorem C03_helpers_source (rc : Nat) :
+    Gen.ldapResult_success rc = some (resU (success rc)) ∧
+    Gen.ldapResult_non_error rc = some (resU (nonError rc)) ∧
+    Gen.searchResult_success rc = some (resU (searchSuccess rc)) ∧
+    Gen.searchResult_non_error rc = some (resU (searchNonError rc)) ∧
+    Gen.exopResult_success rc = some (resU (exopSuccess rc)) ∧
+    Gen.exopResult_non_error rc = some (resU (exopNonError rc)) ∧
+    Gen.compareResult_equal rc = some (resB (equal rc)) ∧
+    Gen.compareResult_non_error rc = some (resU (cmpNonError rc)) :=
+  ⟨gen_ldapResult_success rc, gen_ldapResult_non_error rc, gen_searchResult_success rc,
+   gen_searchResult_non_error rc, gen_exopResult_success rc, gen_exopResult_non_error rc,
+   gen_compareResult_equal rc, gen_compareResult_non_error rc⟩
+
+example : Gen.exopResult_non_error 10 = some (.ok none) ∧ Gen.exopResult_non_error 11 = some .err ∧
+    Gen.compareResult_equal 6 = some (.ok (some true)) := by decide
+
 
 end Ldap3V
